@@ -65,3 +65,59 @@ claim('C13',
       'mask index arithmetic on runtime arrays inside read_data_page_v2 and the null-scatter branches',
       'Trusts the symbolic walker and the grammar list; K13 is not repairable by a minimal patch.',
       'DESIGN.md 5/C13')
+
+claim('C07',
+      'who-may-seek effect ownership, restoring-handler typestate, def-use of part numbering, call-graph reachability of remove/rename, CFG ordering of compatibility checks',
+      'only write_to_file and update_file_custom_metadata move an output handle; the single-file append positions '
+      'itself at the old footer (length read from the tail) before any data write, everything it then writes is '
+      'enclosed by a BaseException handler that restores the saved footer (seek, write, truncate, re-raise) and the '
+      'handle metadata is committed only after all row groups were written; multi-file append opens only fresh '
+      'part.(max+1+i) names with mode wb; rename/remove/seek are unreachable on the append route; the symmetric '
+      'column comparison and the scheme/partition checks precede every write.',
+      'value equality of rows read back; categorical relabelling on read when batches carry different categories',
+      'Trusts engine/effects.py (effect vocabulary) and the resolved call graph.',
+      'DESIGN.md 5/C07')
+
+claim('C09',
+      'CFG ordering of file-system effects vs the summary rewrite, def-use agreement of removed files and metadata, rename-plan shape',
+      'every dataset mutator rewrites _metadata after its last file-system mutation on all normal exits and the '
+      'public entry points ask for it; the files removed are the files of the row groups dropped from the metadata '
+      'and num_rows follows; a renamed file\'s path is stored on every chunk of the right row group; renumbering is '
+      'a two-pass rename through temporary names; no part file or directory is created for an empty group; new '
+      'parts get fresh numbers. Known finding K09 (rename plan keyed by bare part number) is reported.',
+      'content equality with a model over arbitrary histories',
+      'Trusts engine/effects.py; K09 cannot be validated by the pinned suite (renaming tests fail in this environment).',
+      'DESIGN.md 5/C09')
+
+claim('C16',
+      'CFG typestate of the in-place footer rewrite, field-store whitelist, reaching definitions for position agreement',
+      'update_file_custom_metadata ends with an unconditional truncate() after the closing magic on every normal '
+      'path, writes the new footer from the very offset it parsed the old one from, stores only into the key-value '
+      'field and keeps the parallel key index in step; None is the only removal sentinel; key/value types are '
+      'validated before any byte is written; the caller\'s dict always reaches the footer verbatim; the read side '
+      'decodes key and value through the same helper and flag.',
+      'merge semantics for arbitrary update sequences; losslessness of re-serialising a foreign footer (C10, K10a/b)',
+      'The append writer is exempt from the truncate rule by a recorded reason (it only adds row groups).',
+      'DESIGN.md 5/C16')
+
+claim('C18',
+      'raise-site inventory, destructive-region analysis with restoring-handler typestate, CFG dominance of validations',
+      'every refusal kind listed by the property has a raise site; in the single-file append every statement that '
+      'overwrites the old footer is enclosed by a handler for BaseException that restores the saved bytes and '
+      're-raises; the multi-file append and the partition overwrite write all new parts (fresh names) before any '
+      'remove/rename/summary write; shape-of-request refusals (columns, names, scheme, partitioning, dtype, unknown '
+      'column) dominate the first write or read of their route.',
+      'readability after failures raised inside pandas/numpy for particular values; write(append=False) replaces by contract',
+      'Trusts the frozen list of refusal kinds (engine/rules/c18.py REFUSALS) and engine/effects.py.',
+      'DESIGN.md 5/C18')
+
+claim('C19',
+      'CFG dominance for parts-first/summary-last, def-use of part numbering, handler scan, ownership of I/O callables',
+      'on the multi-file append route all part-file effects precede the first effect on _metadata (write_multi is '
+      'called with write_fmd=False/append=True and dominates the summary rewrite, _metadata before '
+      '_common_metadata, nothing after it); every part file is opened wb under part.(i+max+1).parquet; no handler '
+      'swallows an error of a write-side step; all I/O goes through the caller-supplied open_with/mkdirs; '
+      'rename/remove/seek/truncate are unreachable.',
+      'what a real file system does at a crash; atomicity of the summary rewrite itself',
+      'Assumes the file-system callables mean what their names say.',
+      'DESIGN.md 5/C19')
